@@ -161,8 +161,37 @@ def closure_value(clo, bindings):
 def _opt_state(x, env):
     """1 = Some/Ok-like present, 0 = absent, None = unknown, from a valuation of discr(x) / is_some(x) / is_ok(x)."""
     sx = strip_sites(detry(x))
-    d = env.get(('discr', sx))
-    return d
+    key = ('discr', sx)
+    if key in env:
+        return env[key]
+    for k in env:
+        if isinstance(k, tuple) and k and k[0] == 'discr' and _has_phi(k) and subsumes(k, key):
+            return env[k]
+    return None
+
+
+def subsumes(key, t):
+    """t is key with some merge alternatives dropped (the value of the same expression on a restricted set of paths)."""
+    if key == t:
+        return True
+    if not isinstance(key, tuple) or not key:
+        return False
+    if key[0] == 'phi':
+        alts = t[1] if isinstance(t, tuple) and t and t[0] == 'phi' else (t,)
+        return all(any(subsumes(ka, ta) for ka in key[1]) for ta in alts)
+    if not isinstance(t, tuple) or len(t) != len(key):
+        return False
+    for a, b in zip(key, t):
+        if isinstance(a, tuple):
+            if not subsumes(a, b):
+                return False
+        elif a != b:
+            return False
+    return True
+
+
+def _has_phi(t):
+    return contains(t, lambda x: x[0] == 'phi')
 
 
 def eval_bool(t, env):
@@ -170,6 +199,9 @@ def eval_bool(t, env):
     st = strip_sites(t)
     if st in env:
         return env[st]
+    for k in env:
+        if isinstance(k, tuple) and _has_phi(k) and subsumes(k, st):
+            return env[k]
     if not isinstance(t, tuple) or not t:
         return None
     k = t[0]
@@ -206,6 +238,10 @@ def eval_bool(t, env):
     if k == 'call':
         nm = call_name(t)
         a = t[2]
+        if nm == 'not' and len(a) == 1:
+            # core::ops::Not::not / anyhow::__private::not (the expansion of ensure!)
+            v = eval_bool(a[0], env)
+            return None if v is None or not isinstance(v, bool) else (not v)
         if nm in ('is_some', 'is_none') and len(a) == 1:
             d = _opt_state(a[0], env)
             if d is not None:
@@ -345,34 +381,49 @@ def unwrap_try(t):
 
 def reach_under(body, tb, env, start=0, stop_blocks=()):
     """TABLE evaluator: blocks reachable from `start` when the atoms in env (stripped term -> value) have the given values.
-    A switch whose discriminant evaluates to a definite value follows only that edge; otherwise every edge."""
-    seen = {start}
-    work = [start]
+    A switch whose discriminant evaluates to a definite value follows only that edge; otherwise every edge.
+    Conditional evaluation: a merged value (phi) only counts the definitions made in blocks that are themselves reachable under
+    env (optimistic fixpoint), so `a || b` and flag variables set on one branch are followed exactly."""
     stop_blocks = set(stop_blocks)
-    while work:
-        b = work.pop()
-        if b in stop_blocks:
-            continue
-        t = body.term(b)
-        succs = body.succ(b)
-        if t and t['k'] == 'switch':
-            n = len(body.blocks[b]['stmts'])
-            dt = tb.operand_term(t['discr'], b, n)
-            v = eval_bool(dt, env)
-            if v is not None:
-                iv = int(v) if isinstance(v, bool) else v
-                taken = None
-                for val, bb in t['targets']:
-                    if val == iv:
-                        taken = bb
-                if taken is None:
-                    taken = t['otherwise']
-                succs = [taken]
-        for s in succs:
-            if s not in seen:
-                seen.add(s)
-                work.append(s)
-    return seen
+    outside = None
+    if start != 0:
+        outside = set(body.normal_blocks()) - body.reachable(start)
+    R = {start}
+    saved = tb.allowed
+    try:
+        for _round in range(12):
+            tb.allowed = frozenset(R | outside) if outside is not None else frozenset(R)
+            seen = {start}
+            work = [start]
+            while work:
+                b = work.pop()
+                if b in stop_blocks:
+                    continue
+                t = body.term(b)
+                succs = body.succ(b)
+                if t and t['k'] == 'switch':
+                    n = len(body.blocks[b]['stmts'])
+                    dt = tb.operand_term(t['discr'], b, n)
+                    v = eval_bool(dt, env)
+                    if v is not None:
+                        iv = int(v) if isinstance(v, bool) else v
+                        taken = None
+                        for val, bb in t['targets']:
+                            if val == iv:
+                                taken = bb
+                        if taken is None:
+                            taken = t['otherwise']
+                        succs = [taken]
+                for s in succs:
+                    if s not in seen:
+                        seen.add(s)
+                        work.append(s)
+            if seen <= R:
+                break
+            R |= seen
+    finally:
+        tb.allowed = saved
+    return R
 
 
 def find_terms(body, tb, pred):
@@ -742,3 +793,129 @@ def seq_norm(t, body=None, use_block=None):
     if p is None:
         return None
     return [(k, strip_sites(_norm_elem(detry(v)))) for k, v in p]
+
+
+# ---------------------------------------------------------------- universally quantified guards
+# "the accept exit is reached only if P(e) holds for every element e of collection C" is written in several ways:
+#   if !C.iter().all(|e| P(e)) { bail }        if C.iter().any(|e| !P(e)) { bail }        for e in C { if !P(e) { bail } }
+# ForAll objects give the rules one interface to all of them: the atoms of the element predicate and its truth table.
+
+class ForAll:
+    def __init__(self, F, body, tb, kind, coll, **kw):
+        self.F, self.body, self.tb, self.kind, self.coll = F, body, tb, kind, coll
+        self.__dict__.update(kw)
+        # the term standing for "the element" inside atoms
+        self.elem = ('param', 2) if kind in ('all', 'any') else ('elem', coll)
+
+    def atoms(self, pred):
+        """Distinct sub-terms of the element predicate satisfying pred (pred sees stripped terms)."""
+        if self.kind in ('all', 'any'):
+            return closure_atoms(self.F, self.clo[1], pred)
+        out = []
+        for bi in self.region:
+            t = self.body.term(bi)
+            if not t:
+                continue
+            n = len(self.body.blocks[bi]['stmts'])
+            ts = []
+            if t['k'] == 'switch':
+                ts.append(self.tb.operand_term(t['discr'], bi, n))
+            elif t['k'] == 'call':
+                ts.extend(self.tb.operand_term(a, bi, n) for a in t['args'])
+            for tt in ts:
+                for x in walk(tt):
+                    if isinstance(x, tuple) and x and isinstance(x[0], str) and pred(strip_sites(x)):
+                        sx = strip_sites(x)
+                        if sx not in out:
+                            out.append(sx)
+        return out
+
+    def values(self, env):
+        """Set of truth values of "this element passes" under the valuation env of its atoms."""
+        if self.kind in ('all', 'any'):
+            vals, _ = closure_return_values(self.F, self.clo[1], env)
+            if vals is None or None in vals:
+                return {True, False}
+            return set(vals) if self.kind == 'all' else {not v for v in vals}
+        reach = reach_under(self.body, self.tb, env, start=self.some, stop_blocks=[self.header])
+        out = set()
+        if self.header in reach:
+            out.add(True)
+        # an exit that leaves the loop without coming back to the header
+        for bi in reach:
+            if bi == self.header:
+                continue
+            t = self.body.term(bi)
+            if t is not None and t['k'] in ('return', 'unreachable'):
+                out.add(False)
+            elif bi not in self.region:
+                out.add(False)
+        return out
+
+    def captured(self, t):
+        """Map an upvar of the predicate closure to the captured value in the host body (identity for loops)."""
+        if self.kind in ('all', 'any') and isinstance(t, tuple) and t and t[0] == 'upvar' and t[1] < len(self.clo[2]):
+            return strip_sites(self.clo[2][t[1]])
+        return t
+
+    def describe(self):
+        if self.kind in ('all', 'any'):
+            return '%s(%s, closure) is %s on every path to the exit' % (self.kind, fmt(self.coll), 'true' if self.kind == 'all' else 'false')
+        return 'loop over %s (header bb%d) runs to exhaustion before the exit and continues only when the element passes' % (fmt(self.coll), self.header)
+
+
+def forall_guards(F, body, tb, accept_blocks, coll_ok):
+    """ForAll guards under which every accept block lies, over collections c with coll_ok(stripped c)."""
+    out = []
+    accept_blocks = list(accept_blocks)
+    # closure forms
+    def is_q(nm):
+        def p(t):
+            if t[0] != 'call' or call_name(t) != nm or len(t[2]) != 2 or t[2][1][0] != 'closure':
+                return False
+            return coll_ok(strip_sites(elem_source(t[2][0])))
+        return p
+    for nm, passing in (('all', True), ('any', False)):
+        for g in find_terms(body, tb, is_q(nm)):
+            ok, info = guard_dominates(body, tb, accept_blocks, lambda x, g=g: strip_sites(x) == g, passing)
+            if ok:
+                out.append(ForAll(F, body, tb, nm, strip_sites(elem_source(g[2][0])), clo=g[2][1], term=g, info=info))
+    # loop form
+    for h in body.normal_blocks():
+        t = body.term(h)
+        if not t or t['k'] != 'switch':
+            continue
+        n = len(body.blocks[h]['stmts'])
+        dt = tb.operand_term(t['discr'], h, n)
+        if not (dt[0] == 'discr' and isinstance(dt[1], tuple) and dt[1][0] == 'next'):
+            continue
+        coll = strip_sites(dt[1][1])
+        if not coll_ok(coll):
+            continue
+        some = [bb for v, bb in t['targets'] if v == 1]
+        none = [bb for v, bb in t['targets'] if v == 0]
+        if len(some) != 1 or len(none) != 1:
+            continue
+        # every accept lies behind the exhausted edge of this loop
+        reach = body.reachable(0, removed_edges={(h, none[0])})
+        if any(a in reach for a in accept_blocks):
+            continue
+        region = {b for b in body.reachable(some[0], removed_blocks=[h]) if h in body.reachable(b)}
+        out.append(ForAll(F, body, tb, 'loop', coll, header=h, some=some[0], region=region, info='accept only behind the exhausted edge bb%d->bb%d' % (h, none[0])))
+    return out
+
+
+def forall_table(g, atoms, expected):
+    """Check the truth table of a ForAll guard's element predicate: for every valuation of atoms, the element may pass
+    (continue towards the accept) only if expected(values) is true, and can pass when it is. Returns list of bad rows."""
+    import itertools
+    bad = []
+    for vals in itertools.product((False, True), repeat=len(atoms)):
+        env = dict(zip(atoms, vals))
+        got = g.values(env)
+        want = bool(expected(vals))
+        if want and True not in got:
+            bad.append((vals, sorted(got), 'never passes'))
+        if not want and True in got:
+            bad.append((vals, sorted(got), 'passes'))
+    return bad
